@@ -17,6 +17,8 @@ PROPS = {
             "note": "span discipline of injected / copied nodes"},
     "C12": {"units": ["U1", "U6a", "U4", "U5", "U6b", "U6c"], "min_obligations": 5,
             "note": "status never disagrees with content"},
+    "C14": {"units": ["U8"], "min_obligations": 8,
+            "note": "literal report: length window, require/RegExp exclusions, which sub-trees are visited, disabled => no report; line/column shaping (get_result) is a pinned trusted leaf"},
     "C15": {"units": ["U1", "U4", "U5", "U6b", "U6c"], "min_obligations": 10,
             "note": "metrics == instrumentation emitted: per-call contracts on update_status/Telemetry (U1) and on every update_status call site of visit_mut_expr (U6)"},
 }
